@@ -4,6 +4,7 @@ import (
 	"fmt"
 	"go/token"
 	"go/types"
+	"strings"
 
 	"golang.org/x/tools/go/ssa"
 )
@@ -285,8 +286,13 @@ func ruleC14Status(cx *Ctx) {
 	}
 	// (c) drain cap: every return of drainWriteBuffer is on the empty-queue edge, the no-maintenance edge, or after Store(processingToRequired)
 	{
-		name := funcName(dwb)
 		tryPop := cx.P.Func("internal/deque/queue", "MPSC", "TryPop")
+		// the drain step proper: the function maintenance reaches that pops the write buffer (drainWriteBuffer itself,
+		// or the loop split off into a helper of it)
+		if f := popperReachedFrom(maint, tryPop, map[*ssa.Function]bool{}, 0); f != nil {
+			dwb = f
+		}
+		name := funcName(dwb)
 		cut := map[edge]bool{}
 		allInstrs(dwb, func(in ssa.Instruction) {
 			if tryPop != nil && isCallTo(in, tryPop) {
@@ -800,4 +806,31 @@ func mustFollowInter(cx *Ctx, from ssa.Instruction, is func(ssa.Instruction) boo
 		}
 	}
 	return true, nil
+}
+
+// popperReachedFrom returns the function statically reached from fn (depth <= 3, module only) that calls tryPop itself.
+func popperReachedFrom(fn, tryPop *ssa.Function, seen map[*ssa.Function]bool, depth int) *ssa.Function {
+	fn = origin(fn)
+	if fn == nil || tryPop == nil || seen[fn] || depth > 3 || len(fn.Blocks) == 0 {
+		return nil
+	}
+	seen[fn] = true
+	var out *ssa.Function
+	allInstrs(fn, func(in ssa.Instruction) {
+		if out == nil && isCallTo(in, tryPop) {
+			out = fn
+		}
+	})
+	if out != nil {
+		return out
+	}
+	allInstrs(fn, func(in ssa.Instruction) {
+		if out != nil {
+			return
+		}
+		if g := calleeOf(in); g != nil && g.Pkg != nil && strings.HasPrefix(g.Pkg.Pkg.Path(), modPath) {
+			out = popperReachedFrom(g, tryPop, seen, depth+1)
+		}
+	})
+	return out
 }
